@@ -42,12 +42,11 @@ def _r1(ctx):
             if isinstance(sl, ast.Subscript) and U(sl.value) == kern and isinstance(sl.slice, ast.Slice) \
                     and sl.slice.upper is None and sl.slice.step is None and sl.slice.lower is not None:
                 aff = C.affine(sl.slice.lower)
-                ok = aff == {idx: 1, 1: 1} and U(c.args[0]) == elem
-                detail = "slice lower bound %s for producer index %s" % (U(sl.slice.lower), idx)
-            start = C.arg_of(loop.iter, 1, "start")
-            if start is not None and C.const_num(start) != 0:
-                ok = False
-                detail += "; enumerate start %s" % U(start)
+                start = C.arg_of(loop.iter, 1, "start")
+                s0 = 0 if start is None else C.const_num(start)
+                # position of the producer in the list = idx - start; the candidates must begin at position + 1
+                ok = s0 is not None and aff == {idx: 1, 1: 1 - s0} and U(c.args[0]) == elem
+                detail = "slice lower bound %s for producer index %s (enumerate start %s)" % (U(sl.slice.lower), idx, s0)
         if ok:
             ctx.node_ok("R1", f, c, "find_depending(%s, %s[%s+1:], ...)" % (elem, kern, idx))
         else:
@@ -71,7 +70,8 @@ def _r2_r3(ctx):
     cfg = C.cfg_of(fd)
     loop = _scan_loop(ctx, fd)
     flagp = fd.params()[3] if len(fd.params()) > 3 else None
-    branches = [n for n in loop.body if isinstance(n, ast.If)]
+    # the per-class branches, wherever they sit (separate ifs, an if/elif chain, ...): only their own body counts
+    branches = [n for n in ast.walk(loop) if isinstance(n, ast.If) and "isinstance(dst, " in U(n.test)]
     seen = set()
     for br in branches:
         t = U(br.test)
@@ -82,8 +82,8 @@ def _r2_r3(ctx):
         if cls is None:
             continue
         seen.add(cls)
-        reads = [n for n in ast.walk(br) if isinstance(n, ast.If) and C.is_call_to(n.test, "is_read")]
-        writes = [n for n in ast.walk(br) if isinstance(n, ast.If) and C.is_call_to(n.test, "is_written")]
+        reads = [n for s in br.body for n in ast.walk(s) if isinstance(n, ast.If) and C.is_call_to(n.test, "is_read")]
+        writes = [n for s in br.body for n in ast.walk(s) if isinstance(n, ast.If) and C.is_call_to(n.test, "is_written")]
         if len(reads) != 1 or len(writes) != 1:
             ctx.node_bad("R2", fd, br, "the %s branch needs one read test and one overwrite test (found %d/%d)" % (
                 cls, len(reads), len(writes)))
@@ -110,6 +110,9 @@ def _r2_r3(ctx):
         if cls == "FlagOperand":
             ok = flagp is not None and ("and %s" % flagp in t or "%s and" % flagp in t) and isinstance(br.test, ast.BoolOp) \
                 and isinstance(br.test.op, ast.And)
+            if not ok and flagp is not None:
+                # the request tested inside the branch: every read/overwrite test must sit under it
+                ok = all(any(p and U(e) == flagp for e, p in C.facts_at(n, stop=br)) for n in (r, w))
             ctx.check(ok, "R3", "flag branch is guarded by the flag_dependencies parameter", fd.where(br),
                       "flag reads/overwrites are considered without the flag-dependency request (test: %s)" % t,
                       fd.qname, "flag branch guard")
@@ -253,10 +256,12 @@ def _r5(ctx):
         env = {"source": s, "destination": d}
         role = None
         try:
-            for st in loop.body:
+            work = list(loop.body)
+            while work:
+                st = work.pop(0)
                 if isinstance(st, ast.If):
                     if _eval_bool(st.test, env):
-                        apps = pm.find("M_d[M_k].append(M_v)", st)
+                        apps = [x for s2 in st.body for x in pm.find("M_d[M_k].append(M_v)", s2)]
                         if apps:
                             role = C.literal(apps[0][1]["M_k"])
                             ok_elem = U(apps[0][1]["M_v"]) == "%s[%s]" % (f.params()[2], idx)
@@ -265,6 +270,10 @@ def _r5(ctx):
                                       "explicit operand index %s" % key)
                         if any(isinstance(x, (ast.Continue, ast.Break)) for x in st.body):
                             break
+                        if st.orelse:
+                            break       # an if/elif chain: the first true arm is the only one taken
+                    else:
+                        work = list(st.orelse) + work
         except ValueError as e:
             ctx.broken("R5: %s" % e)
         ctx.check(role == spec[key], "R5", "explicit operand %s -> %s" % (key, spec[key]), f.where(loop),
@@ -273,17 +282,24 @@ def _r5(ctx):
     # hidden operand classifiers
     cls = [a for a in ast.walk(f.node) if isinstance(a, ast.Assign) and isinstance(a.value, ast.IfExp)
            and isinstance(a.targets[0], ast.Name)]
-    ctx.floor("R5", "hidden-operand classifiers", len(cls), 2)
-    for a in cls:
+    def leaves(v):
+        """the (source, destination) classifiers below a representation switch `X if isinstance(op, Operand) else Y`"""
+        if isinstance(v, ast.IfExp) and "isinstance(" in U(v.test):
+            return leaves(v.body) + leaves(v.orelse)
+        return [v] if isinstance(v, ast.IfExp) else []
+    pairs = [(a, v) for a in cls for v in leaves(a.value)]
+    ctx.floor("R5", "hidden-operand classifiers", len(pairs), 2)
+    for a, v in pairs:
         for key, (s, d) in combos.items():
             try:
-                role = _eval_ifexp(a.value, {"source": s, "destination": d})
+                role = _eval_ifexp(v, {"source": s, "destination": d})
             except ValueError as e:
                 ctx.broken("R5: %s" % e)
             ctx.check(role == spec[key], "R5", "hidden operand %s -> %s (%s form)" % (
-                key, spec[key], "object" if "." in U(a.value.test) else "dict"), f.where(a),
+                key, spec[key], "object" if "." in U(v.test) else "dict"), f.where(a),
                 "a hidden operand with (source, destination) = %s is filed under %r instead of %r" % ((s, d), role, spec[key]),
-                f.qname, "hidden classification %s %s" % (key, U(a.value.test)[:30]))
+                f.qname, "hidden classification %s %s" % (key, U(v.test)[:30]))
+    for a in cls:
         var = a.targets[0].id
         use = pm.find("M_d[%s].append(M_o)" % var, f.node)
         ctx.check(bool(use), "R5", "the classified hidden operand is appended under that role", f.where(a),
